@@ -77,3 +77,22 @@ Example noscipy_example :
   conservative_verdict_noscipy 3 true = Some true /\ consistent_verdict_noscipy 2 false = None /\
   consistent_verdict_noscipy 0 false = Some false /\ mscale 4 [[1; -2]; [0; 3]] = [[4; -8]; [0; 12]].
 Proof. vm_compute. repeat split; reflexivity. Qed.
+
+(* ------------------------------------------------------------------ completeness direction of is_consistent, conditionally *)
+
+(** the verdict is True as soon as the LP answered "success with a small residual" — that HiGHS does so on every feasible problem is
+    the solver premise (compared per input with the certified truth, never proved) *)
+Lemma consistent_verdict_lp_ok kr nm : nm_lpR nm = 0%nat -> consistent_verdict kr nm = Some true.
+Proof. unfold consistent_verdict. intros ->. reflexivity. Qed.
+
+(** None (inconclusive) is answered exactly when the LP gave no usable answer, the right kernel is non-trivial and no basis column
+    is sign definite *)
+Lemma consistent_verdict_none kr nm :
+  consistent_verdict kr nm = None <-> (2 <= nm_lpR nm)%nat /\ kr <> 0%nat /\ nm_scanR nm = false.
+Proof.
+  unfold consistent_verdict. destruct (nm_lpR nm) as [|[|k]]; [split; [discriminate|lia]|split; [discriminate|lia]|].
+  destruct (Nat.eqb_spec kr 0); [split; [discriminate|intros (_ & H & _); contradiction]|].
+  destruct (nm_scanR nm); split; try discriminate; intros; try tauto.
+  - destruct H as (_ & _ & H). discriminate.
+  - repeat split; auto. lia.
+Qed.
